@@ -284,6 +284,17 @@ def _geom(name):
         psf = np.array([[0.125, 0.5, 0.0], [0.25, 1.0, 0.5], [0.0, 0.25, 0.0]])
         noise = np.array([2.0, 1.0, 0.5, 1.0, 2.0, 4.0, 1.0])
         sub, mesh, mesh2 = 2, (2, 3), (3, 2)
+    elif name in ("tall", "wide", "col", "row", "big"):
+        # 7x7 frame, central 3x3 block; non-square PSFs (5x3 / 3x5 / 3x1 / 1x3: row reach != column reach), and 'big': the sq3
+        # PSF with the noise map in large units (x 2^16, still dyadic: entries of F ~ 1e-9, far below absolute tolerances)
+        mask = np.ones((7, 7), dtype=bool)
+        mask[2:5, 2:5] = False
+        psf = {"tall": np.array([[0.0, 0.25, 0.125], [0.25, 0.5, 0.0], [0.5, 1.0, 0.25], [0.0, 0.5, 0.25], [0.125, 0.25, 0.0]]),
+               "wide": np.array([[0.0, 0.25, 0.5, 0.0, 0.125], [0.25, 0.5, 1.0, 0.5, 0.25], [0.125, 0.0, 0.25, 0.25, 0.0]]),
+               "col": np.array([[0.5], [1.0], [0.25]]), "row": np.array([[0.25, 1.0, 0.5]]),
+               "big": np.array([[0.0, 0.5, 0.0], [0.5, 1.0, 0.25], [0.0, 0.25, 0.125]])}[name]
+        noise = np.array([1.0, 2.0, 1.0, 2.0, 4.0, 2.0, 1.0, 2.0, 0.5]) * (65536.0 if name == "big" else 1.0)
+        sub, mesh, mesh2 = 1, (3, 3), (2, 2)
     else:
         raise KeyError(name)
     n = int((~mask).sum())
@@ -588,6 +599,35 @@ def _tol(keys, concrete_tol):
 DERIVED = ("mapped_reconstructed_data", "regularization_term")     # functions of the reconstruction (and of matrices checked before it)
 
 
+REL_TOL = 1e-9      # for concrete floats, relative to the largest magnitude of the expected output (unit-free)
+
+
+def _is_plain(x):
+    return not (isinstance(x, (hx.Raised, str)) or x is None or shim.has_sym(x))
+
+
+def _same_scaled(a, e, tol=REL_TOL):
+    """concrete comparison |a - e| <= tol * max|e| (unit-free: an output of magnitude 1e-9 is not 'equal' to 0)"""
+    if not (_is_plain(a) and _is_plain(e)):
+        return hx.concrete_equal(a, e)
+    try:
+        a = np.asarray(shim.normalise(hx.unwrap(a)), dtype=float)
+        e = np.asarray(shim.normalise(hx.unwrap(e)), dtype=float)
+    except (TypeError, ValueError):
+        return hx.concrete_equal(a, e)
+    if a.shape != e.shape:
+        return False
+    fin = np.isfinite(e)
+    if not np.array_equal(fin, np.isfinite(a)):
+        return False
+    if not fin.all() and not np.array_equal(a[~fin], e[~fin], equal_nan=True):
+        return False
+    if not fin.any():
+        return True
+    scale = float(np.max(np.abs(e[fin])))
+    return bool(np.all(np.abs(a[fin] - e[fin]) <= tol * scale))
+
+
 def _check_in_order(ctx, A, E, tol, known):
     """one obligation per key, in observation order; once the reconstruction of an inversion is refuted, the quantities
     derived from it (B s, s^T H s: the latter a quadratic 'differs somewhere' query that costs z3 minutes) are not queried
@@ -597,7 +637,11 @@ def _check_in_order(ctx, A, E, tol, known):
         prefix, name = key.rsplit("|", 1)
         if name in DERIVED and prefix in refuted:
             continue
-        ok = hx.check_all(ctx, A, E, tol=tol, known=known, only={key})
+        if key in A and _is_plain(A[key]) and _is_plain(E[key]) and not name.endswith("_unchanged"):
+            # both sides concrete floats (two float64 routes to the same number): scale-relative comparison, same as in replay
+            ok = ctx.check(key, _same_scaled(A[key], E[key]), known=(known or {}).get(key))
+        else:
+            ok = hx.check_all(ctx, A, E, tol=None, known=known, only={key})
         if not ok and name == "reconstruction":
             refuted.add(prefix)
 
@@ -675,6 +719,7 @@ TABLE_STEPS = ((("M", "d"), ("M", "e"), ("M", "d")),                 # data diff
                (("M", "d"), ("N", "d"), ("FM", "e"), ("M", "d")))     # mappers / mixes differ on the same tables, then data too
 TABLE_STEPS = TABLE_STEPS + ((("OM", "d"), ("MO", "e"), ("OM", "e")),)
 TABLE_STEPS_MORE = ((("N", "e"), ("M", "e"), ("MGMF", "d")), (("FM", "d"), ("FM", "e")), (("MM", "e"), ("MF", "d"), ("MM", "d")))
+UNIT_GEOMS = ("tall", "wide", "big")
 HETERO_MIXES = ("GFM", "FGM", "MGMF", "OM", "MOF")       # O: function list with an operated_mapping_matrix_override
 HETERO_CORE = ((), ("curvature_matrix",), ("regularization_matrix",), ("operated_mapping_matrix",), ("w_tilde", "operated_mapping_matrix"),
                ("regularization_matrix", "log_det_regularization_matrix_term"), ("curvature_matrix", "operated_mapping_matrix"), SLOTS)
@@ -723,6 +768,13 @@ def cases(tier):
         for share in ("preloads", "dataset"):
             for steps in TABLE_STEPS if quick else TABLE_STEPS + TABLE_STEPS_MORE:
                 out.append(("case_tables", {"geom": geom, "steps": [list(s_) for s_ in steps], "share": share}))
+    # (9) non-square PSFs and large-unit noise: w-tilde tables / mirrored curvature matrix vs the mapping formalism
+    for geom in UNIT_GEOMS if quick else UNIT_GEOMS + ("col", "row"):
+        for mix in ("FM", "MM"):
+            for wt in (True, False):
+                out.append(("case_seq", {"geom": geom, "mix": mix, "wt": wt, "subsets": [list(s_) for s_ in HETERO_CORE], "k": 2}))
+            out.append(("case_factory", {"geom": geom, "mix": mix}))
+        out.append(("case_tables", {"geom": geom, "steps": [list(s_) for s_ in TABLE_STEPS[1]], "share": "preloads"}))
     # (7) mixes in which EVERY further slot is non-trivial: two function lists with different parameter counts (3 and 2, both
     # orders) and two mappers with different mesh sizes, so that per-object column offsets and the positional re-keying of the
     # dict slots (linear_func_operated_mapping_matrix_dict, data_linear_func_matrix_dict, mapper_operated_mapping_matrix_dict)
@@ -744,4 +796,13 @@ def cases(tier):
 
 
 def replay(cand):
-    return hx.replay_body(BODIES[cand["case_fn"]], cand, tol=CONCRETE_TOL)
+    """native run of the same body on the counterexample; outputs compared relative to the magnitude of the expected output"""
+    inp = hx.to_float_struct(cand["case"])
+    actual, expected = BODIES[cand["case_fn"]](inp, **cand["case_kwargs"])
+    keys = [cand["obligation"]] if cand.get("obligation") in expected else list(expected)
+    bad = [k for k in keys if k not in actual or not _same_scaled(actual[k], expected[k], 1e-7)]
+    if bad:
+        k = bad[0]
+        return True, "outputs differ from the reference on the real code: %s; e.g. %s: actual=%s expected=%s" % (
+            bad[:6], k, hx._short(actual.get(k)), hx._short(expected[k]))
+    return False, "real code agrees with the reference on this input (%d outputs compared)" % len(keys)
